@@ -10,6 +10,7 @@ import CheetahModel.DriverText
 import CheetahModel.DriverNx
 import CheetahModel.DriverRev
 import CheetahModel.DriverNml
+import CheetahModel.DriverProm
 /-!
 # Line-protocol driver
 
@@ -44,6 +45,10 @@ def handle (line : String) : String :=
     match DrvText.run rest with
     | some out => out
     | none => "ERR txt-parse"
+  | "prom" :: rest =>
+    match DrvProm.run rest with
+    | some out => out
+    | none => "ERR prom-parse"
   | "nml" :: rest =>
     match DrvNml.run rest with
     | some out => out
